@@ -2,6 +2,7 @@
    Property theorems only. *)
 Require Import Base Crc Bitfield Headers Encode Decode Process Ops Spec Judge.
 Require Import HeaderForms IanaForm PecFacts EncodeFacts DecodeFacts Hist StepsSimple StepsEncode.
+Require Import Readable.
 Open Scope N_scope.
 
 (* (1) in every well-formed history, every successful encode of the model starts with
@@ -35,3 +36,28 @@ Proof. vm_compute. reflexivity. Qed.
 Print Assumptions C04_oracle_holds_on_model.
 Print Assumptions C04_generate_fits.
 Print Assumptions C04_generate_oversize_refused.
+
+(* ---------- stated directly about an encoder call (no oracle to read) ---------- *)
+(* (4) after any successful encode of n bytes: the SMBus framing bytes are destination address with R/W# 0, command
+   code 0x0F, byte count n - 4, source address with bit 0 set; 10 <= n <= 259 (10 is attained: an empty body);
+   the packet fits the buffer; and the length probe on any prefix of at least 3 bytes of it answers n *)
+Theorem C04_framing_of_every_encoded_packet : forall ovf g c h id a ls w buf out n,
+  wf_cfg g -> cinv g c -> args_okb h id a ls = true ->
+  encode_call ovf c h id a ls = Some w -> w buf = (out, Val (Some n)) ->
+  firstn 4 out = [(enc_dest h id a mod 128) * 2; 15; N.of_nat (n - 4); (g_addr g mod 128) * 2 + 1] /\
+  (10 <= n <= 259)%nat /\ (n <= length buf)%nat /\
+  forall k, (3 <= k <= n)%nat -> get_length (firstn k out) = ok n.
+Proof. exact framing. Qed.
+
+(* the hypotheses are satisfiable and the lower bound is attained: a control-type packet with no header, no data *)
+Example C04_ten_byte_packet :
+  let g := {| g_addr := 0x23; g_msg_types := []; g_vendor_ids := [] |} in
+  wf_cfg g /\ cinv g (ctx_of g) /\ args_okb true 30 [0x34; 0; 0] [] = true /\
+  exists w, encode_call true (ctx_of g) true 30 [0x34; 0; 0] [] = Some w /\
+    w (repeat 7 12) = ([104; 15; 6; 71; 1; 52; 35; 200; 0; 122; 7; 7], Val (Some 10%nat)).
+Proof.
+  cbv zeta. split; [repeat split; try constructor; reflexivity|]. split; [apply cinv_init; repeat split; try constructor; reflexivity|].
+  split; [reflexivity|]. eexists. split; [reflexivity|]. vm_compute. reflexivity.
+Qed.
+
+Print Assumptions C04_framing_of_every_encoded_packet.
